@@ -10,4 +10,4 @@ import (
 	"verif/internal/subharness"
 )
 
-func TestCheck(t *testing.T) { subharness.Run(t, "C12") }
+func TestCheck(t *testing.T) { subharness.RunWith(t, "C12", filterPart) }
